@@ -814,22 +814,28 @@ def Array(
         def encode(cls, values: List[Any], length: Optional[int] = None) -> bytes:
             _length = length or cls.length
             try:
+                # bit arrays take a flat list of bools, one element is chunk_size of them
+                is_bits = issubclass(cls.element_type, BitArrayType)
+                chunk_size = cls.element_type.size * 8 if is_bits else 1
+
                 if isinstance(_length, int):
-                    if len(values) < _length:
+                    if len(values) < _length * chunk_size:
                         raise DataError(
                             f"Not enough values to encode array of {cls.element_type}[{_length}]"
                         )
 
                     _len = _length
                 else:
-                    _len = len(values)
-
-                if issubclass(cls.element_type, BitArrayType):
-                    chunk_size = cls.element_type.size * 8
+                    if len(values) % chunk_size:
+                        raise DataError(
+                            f"Number of values must be a multiple of {chunk_size} for arrays of {cls.element_type}"
+                        )
                     _len = len(values) // chunk_size
+
+                if is_bits:
                     values = [
                         values[i : i + chunk_size]
-                        for i in range(0, len(values), chunk_size)
+                        for i in range(0, _len * chunk_size, chunk_size)
                     ]
 
                 encoded = b"".join(cls.element_type.encode(values[i]) for i in range(_len))
